@@ -10,7 +10,9 @@ import core
 THEOREMS = core.theorems_in(['C01a.lean'], 'Flowdyn.C01') + ['Flowdyn.C15.balance2d', 'Flowdyn.C15.periodic2d', 'Flowdyn.C06.fdJac_conservative', 'Flowdyn.C06.thetaStep_conserves']
 AUDIT_IMPORTS = ['Flowdyn.Props.C15', 'Flowdyn.Props.C06', 'Flowdyn.Props.C07b']
 THEOREMS = THEOREMS + ['Flowdyn.C07.loop_preserves', 'Flowdyn.C07.run_preserves', 'Flowdyn.C07.run_preserves_data']
-PARTIAL = {"2D walls": "2D balance and periodic invariance are theorems (C15.balance2d, periodic2d); mass/energy invariance with 2D slip walls is checked by the sweep", "implicit": "a theta-step with one global time step conserves every linear functional killed by the operator (C06.thetaStep_conserves); the lift to gear with memory and to whole solves is by the sweep"}
+AUDIT_IMPORTS = AUDIT_IMPORTS + ['Flowdyn.Props.C01b']
+THEOREMS = THEOREMS + core.theorems_in(['C01b.lean'], 'Flowdyn.C01')
+PARTIAL = {"2D walls": "2D balance, periodic invariance and mass/energy invariance between slip walls (centered and HLLE, any scheme; C01b.closed2d, euler2d_sym_walls_conserve, euler2d_channel_momentum) are theorems; HLLE assumes positive extrapolated wall densities", "implicit": "a theta-step with one global time step conserves every linear functional killed by the operator (C06.thetaStep_conserves); the lift to gear with memory and to whole solves is by the sweep"}
 LEVEL_NOTE = "telescoping balance, periodic and wall invariance, integrator conservation proved on the model; 2D and implicit clauses: see PARTIAL"
 
 EXPL = ['explicit', 'rk2', 'rk2_heun', 'rk3_heun', 'rk3ssp', 'rk4', 'lsrk25bb', 'lsrk26bb', 'lsrk4']
